@@ -27,7 +27,90 @@ def gen_programs(rng, ctx, tier, nmin=4, nmax=12):
     return recipe, targets
 
 
+def _chunking(rng, n, style):
+    if style == "one":
+        return [n]
+    k = min({"fine": rng.choice([1, 2]), "coarse": rng.choice([3, 4, 5])}.get(style) or rng.randint(1, n), n)
+    out = [k] * (n // k) + ([n % k] if n % k else [])
+    if style == "shift" and len(out) > 1 and out[-1] > 1:
+        out = [1] + out[:-1] + [out[-1] - 1]
+    return out
+
+
+def gen_layout_drift(rng):
+    """Structured scenario: an elementwise node over two DIFFERENTLY CHUNKED sources (its layout is a
+    unification result, i.e. depends on array.unify-chunks-policy/-limit) directly under a consumer that
+    plans on its input's block grid (native sliding-window reduction), with the unify configuration flipped
+    between construction and computation.  (tools/f19_census.py runs the same family in bulk.)"""
+    nd = rng.choice([1, 2])
+    shape = [rng.choice([6, 8]) for _ in range(nd)]
+    srcs, steps = {}, []
+    for i in range(2):
+        srcs[f"s{i}"] = {"shape": shape, "dtype": rng.choice(["f8", "f8", "i8", "f4"]), "offset": 3 + 11 * i, "kind": "ndarray"}
+        ch = [_chunking(rng, n, rng.choice(["fine", "coarse", "shift", "one", "rand"])) for n in shape]
+        steps.append({"op": "from_array", "in": [], "args": {"src": f"s{i}", "chunks": ch}, "out": f"v{i}"})
+    steps.append({"op": "binary", "in": ["v0", "v1"], "args": {"f": rng.choice(["add", "mul", "maximum", "sub"])}, "out": "v2"})
+    ax = rng.randrange(nd)
+    steps.append({"op": "window", "in": ["v2"], "args": {"axis": ax, "w": rng.randint(2, min(4, shape[ax])),
+                                                       "reduce": rng.choice(["mean", "sum", "max", "min", "std"])}, "out": "v3"})
+    pol = H.CONFIG_DOMAIN["array.unify-chunks-policy"]
+    lim = [None, "16B", "32B", "64B", "1KiB"]
+    hist = [{"ev": "config", "key": "array.unify-chunks-policy", "value": rng.choice(pol)}]
+    if rng.random() < 0.6:
+        hist.append({"ev": "config", "key": "array.unify-chunks-limit", "value": rng.choice(lim)})
+    hist.append({"ev": "build", "var": "v3"})
+    if rng.random() < 0.5:
+        hist.append({"ev": "inspect", "var": "v3", "acc": ["chunks", "shape"]})
+    if rng.random() < 0.3:
+        hist += [{"ev": "build", "var": "v2"}, {"ev": "inspect", "var": "v2", "acc": ["chunks"]}]
+    if rng.random() < 0.3:
+        hist += [{"ev": "drop", "var": "v3"}, {"ev": "gc"}]
+    hist.append({"ev": "config", "key": "array.unify-chunks-policy", "value": rng.choice(pol)})
+    if rng.random() < 0.6:
+        hist.append({"ev": "config", "key": "array.unify-chunks-limit", "value": rng.choice(lim)})
+    if rng.random() < 0.4:
+        hist.append({"ev": "build", "var": "v3", "force": rng.random() < 0.5})
+    hist.append(dict({"ev": "compute", "var": "v3"}, **H.rand_sched(rng)))
+    if rng.random() < 0.3:
+        hist.append(dict({"ev": "persist", "var": "v3", "out": "p1"}, **H.rand_sched(rng)))
+        hist.append(dict({"ev": "compute", "var": "p1"}, **H.rand_sched(rng)))
+    return {"recipe": {"sources": srcs, "generators": {}, "steps": steps}, "targets": ["v3", "v2"], "history": hist}
+
+
+def gen_tree_vs_grid(rng):
+    """Structured scenario: a reduction tree sized at CONSTRUCTION (argmin/argmax) over an input whose
+    optimized block grid is finer than the advertised one (native sliding-window reduction over
+    one-element blocks), built and computed under several tree fan-ins (config split_every)."""
+    nd = rng.choice([1, 2])
+    shape = [rng.choice([5, 6, 8]) for _ in range(nd)]
+    srcs = {"s0": {"shape": shape, "dtype": rng.choice(["f8", "i8", "f4"]), "offset": rng.randint(0, 20), "kind": "ndarray"}}
+    ax = rng.randrange(nd)
+    ch = [([1] * n if i == ax or rng.random() < 0.5 else _chunking(rng, n, "rand")) for i, n in enumerate(shape)]
+    steps = [{"op": "from_array", "in": [], "args": {"src": "s0", "chunks": ch}, "out": "v0"},
+             {"op": "window", "in": ["v0"], "args": {"axis": ax, "w": rng.randint(2, 3), "reduce": rng.choice(["max", "min", "sum", "mean"])},
+              "out": "v1"},
+             {"op": "reduction", "in": ["v1"], "args": {"f": rng.choice(["argmax", "argmin"]), "axis": rng.choice([ax, ax, None])}, "out": "v2"}]
+    hist = []
+    if rng.random() < 0.8:
+        hist.append({"ev": "config", "key": "split_every", "value": rng.choice([2, 3])})
+    hist.append({"ev": "build", "var": "v2"})
+    if rng.random() < 0.4:
+        hist.append({"ev": "config", "key": "split_every", "value": rng.choice([2, 3, 16])})
+    if rng.random() < 0.3:
+        hist.append({"ev": "config", "key": "array.optimize-graph", "value": rng.random() < 0.5})
+    hist.append(dict({"ev": "compute", "var": "v2"}, **H.rand_sched(rng)))
+    if rng.random() < 0.4:
+        hist.append({"ev": "build", "var": "v2", "force": True})
+        hist.append(dict({"ev": "compute", "var": "v2"}, **H.rand_sched(rng)))
+    return {"recipe": {"sources": srcs, "generators": {}, "steps": steps}, "targets": ["v2", "v1"], "history": hist}
+
+
 def gen(rng, tier):
+    r_ = rng.random()
+    if r_ < 0.08:
+        return gen_layout_drift(rng)
+    if r_ < 0.12:
+        return gen_tree_vs_grid(rng)
     ctx = G.Ctx(rng)
     names = sorted(G.OPS)
     ctx.enabled = G.swarm_subset(rng, names, 0.75, always=("from_array", "rechunk", "binary", "reduction"))
@@ -200,7 +283,7 @@ def run_history(m, case, stats, log, check=None):
                     cfg = dict(m.config_history)
                     raise Violation(ID, "value-depends-on-history",
                                     f"event {i}: compute({var}) [program {org}] differs from the pristine value of the same "
-                                    f"program: {r}; config flips so far: {cfg}", step=i)
+                                    f"program: {r}; config flips so far: {cfg}", step=i, info={"program": org})
             log.append([i, "compute", var, fp(val)])
         elif ev["ev"] == "build":
             x = out["x"]
@@ -237,7 +320,8 @@ def _compute_many(m, i, ev, stats, log):
             if r:
                 raise Violation(ID, "value-depends-on-history",
                                 f"event {i}: dask.compute({vs}) result for {v} [program {m.origin.get(v)}] differs from the "
-                                f"pristine value: {r}; config flips so far: {dict(m.config_history)}", step=i)
+                                f"pristine value: {r}; config flips so far: {dict(m.config_history)}", step=i,
+                                info={"program": m.origin.get(v)})
         log.append([i, "compute_many", v, fp(val)])
 
 
@@ -305,8 +389,27 @@ def candidates(case):
             yield c
 
 
+def _pre_f19(case, result):
+    if not H.pre_unify_flip(case, result):
+        return False
+    # Census (tools/f19_census.py, 4000 structured cases on the tree the finding was recorded for): when
+    # the only consumers between the differently-chunked elementwise nodes and the violating program are
+    # native sliding-window reductions, F19 shows as a loud error ("adjust_chunks specified with N
+    # blocks"), never as a wrong value -- the reduction re-splits its input at lowering.  A WRONG VALUE
+    # in that family is therefore not F19 and is reported.
+    if result.get("cls") == "value-depends-on-history":
+        prog = (result.get("info") or {}).get("program")
+        rec = case["recipe"]
+        if prog is not None and any(s_["out"] == prog for s_ in rec["steps"]):
+            kinds = {(s_["op"], "reduce" in s_["args"]) for i_ in G.needed_steps(rec, prog) for s_ in [rec["steps"][i_]]
+                     if s_["op"] not in ("from_array", "creation", "binary", "unary")}
+            if kinds and kinds <= {("window", True)}:
+                return False
+    return True
+
+
 FINDING_ABLATIONS = {
-    "F19": (H.pre_unify_flip, H.abl_unify_flip),
+    "F19": (_pre_f19, H.abl_unify_flip),
     "F20": (H.pre_userfn, H.ablate_userfns),
     "F28": (H.pre_masked_unoptimized, H.abl_unmask),
 }
